@@ -59,7 +59,7 @@ func genBulk(t *rapid.T) BulkCase {
 	n := rapid.SampledFrom(pageCounts).Draw(t, "nrules") - 1 // pd/default is the first stored rule
 	for i := 0; i < n; i++ {
 		r := BulkRule{G: rapid.IntRange(0, c.NGroups+4).Draw(t, "g"), S: -1, E: -1,
-			Role: rapid.IntRange(0, 2).Draw(t, "role"), N: rapid.IntRange(1, 3).Draw(t, "count"), Ix: rapid.IntRange(0, 2).Draw(t, "index")}
+			Role: rapid.IntRange(0, 2).Draw(t, "role"), N: rapid.IntRange(1, 3).Draw(t, "count"), Ix: genIndex(t, []int{0, 1, 2}, "index")}
 		switch rapid.IntRange(0, 5).Draw(t, "rangeKind") {
 		case 0:
 		case 1:
